@@ -27,7 +27,9 @@ exits and the yield of a generator-based context manager included) passes its
 release(). READ-LOOP - every `while` loop of the reader modules that reads the file
 (readline / read) stops on an empty read (expected instances on the shipped
 code: 0, it iterates with `for line in fil`; a built-in canary is checked at
-every run). Not decided: other hangs; equality of a surviving edition with the complete
+every run). END-FLAG-TERM - Scanner._is_end_flag answers positively only on paths where the
+line is known to end with a newline (a cut inside the value of the flag leaves
+an unterminated last line). Not decided: other hangs; equality of a surviving edition with the complete
 listing; exceptions originating in library calls outside the primitive
 table; the ParseResult post-processing layer (its raise sites validate
 programmer-supplied types, not listing content).
@@ -43,6 +45,7 @@ def check(ctx):
     ctx.run(parsers.check_exc_esc)
     ctx.run(parsers.check_lock_pair)
     ctx.run(parsers.check_read_loop)
+    ctx.run(parsers.check_end_flag_terminated)
 
 
 def variants(program):
